@@ -49,6 +49,8 @@ def set_epoch_rule(rep: Report, R, E: str, clause: str):
     """main_sampler.set_epoch(<epoch counter>) before every epoch's iteration (shared by C04 and C06)."""
     fa, cfg, fi = R.fa, R.fa.cfg, R.fi
     N, I = R.main_next, R.main_iter
+    if getattr(R, "main_source_node", None) is not None:
+        I = R.main_source_node  # islice(self.main_sampler, ..) takes iter() of the sampler where it is created
     # ---- 1. set_epoch ----------------------------------------------------------------------------------
     rep.rule("G8.set_epoch", "main_sampler.set_epoch(<epoch counter>) lies on every path to each epoch's iteration of the "
              "main sampler (first epoch and every later one), is guarded by nothing but the hasattr test, and its "
@@ -261,100 +263,18 @@ def run(prog: Program, rep: Report, tier: str):
                   and fa.sym.term(val, n) == ("const", True)]
     rets += flag_stops
     rep.require(rets, "anchor-missing: return inside the main loop of _training_loop")
-    # one stopping test with a disjunction, or one test per budget (guard clauses, nested ifs): the stop condition of a
-    # return is the conjunction of its guards inside the update block; guards that only say 'an earlier return was not
-    # taken' are not part of it
     nearest = {r: R.nearest_test(r) for r in rets}
     rep.require(any(v is not None for v in nearest.values()), "anchor-missing: budget test")
     outer = set(cfg.control_predicates(upd_entry)) | {(T2, T2lab)}
-    exits_other_way = {(t_, not lab) for t_, lab in nearest.values() if isinstance(lab, bool)} if all(
-        v is not None for v in nearest.values()) else set()
-
-    def _dnf(t) -> List[List[Term]]:
-        if t[0] == "or":
-            out = []
-            for x in t[1]:
-                out += _dnf(x)
-            return out
-        if t[0] == "and":
-            acc = [[]]
-            for x in t[1]:
-                acc = [a + b for a in acc for b in _dnf(x)]
-            return acc
-        return [[t]]
-
-    stops = []  # (test node, conjunct list)
     Bns = []
     for r in rets:
-        if nearest[r] is None:
-            continue
         gs = [(t_, lab) for t_, lab in cfg.control_predicates(r)
-              if cfg.nodes[t_].kind == "test" and (t_, lab) not in outer and (t_, lab) not in exits_other_way
-              and in_main_body(t_)]
-        if not gs:
-            continue
-        Bns.append(gs[-1][0])
-        acc = [[]]
-        for t_, lab in gs:
-            bt = R.term_at(t_) if lab else negate(R.term_at(t_))
-            acc = [a + b for a in acc for b in _dnf(bt)]
-        stops += [(gs[-1][0], c) for c in acc]
+              if cfg.nodes[t_].kind == "test" and (t_, lab) not in outer and in_main_body(t_)]
+        if gs:
+            Bns.append(gs[-1][0])
     rep.require(Bns, "anchor-missing: budget test")
     Bn = min(Bns, key=lambda n: R.line(n))
-    seen_units = {}
-    unit_counter = {"epochs": E, "updates": U, "samples": S}
-    for tn, conj in stops:
-        d = ("and", tuple(conj)) if len(conj) != 1 else conj[0]
-        unit = None
-        cmp_ = None
-        for c in conj:
-            if c[0] == "not" and c[1][0] == "is":
-                for x in c[1][1]:
-                    if x[0] == "self":
-                        unit = x[1]
-            elif c[0] in ("eq", "le", "lt", "ne"):
-                cmp_ = c
-        if unit is None or cmp_ is None or unit not in unit_counter:
-            rep.unk("G8.budget", fi, f"disjunct:{show(d)[:60]}", "budget disjunct of unrecognised shape",
-                    line=R.line(tn), clause="C04.4")
-            continue
-        p = term_to_poly(cmp_[1])
-        cvars = [a for a in p.atoms() if a[0] == "var"]
-        battr = [a for a in p.atoms() if a == ("self", unit)]
-        want = unit_counter[unit]
-        ok_pair = len(cvars) == 1 and cvars[0][1] == want and len(battr) == 1 and len(p.atoms()) == 2 \
-            and p.const_value() is None and () not in p.terms
-        kind = cmp_[0]
-        detail = ""
-        ok_cmp = None
-        if ok_pair:
-            cb, cc = p.coeff_of(battr[0]).const_value(), p.coeff_of(cvars[0]).const_value()
-            if kind == "eq":
-                ok_cmp = unit != "samples" and cb is not None and cc is not None and cb == -cc
-                if unit == "samples":
-                    detail = "samples budget compared with == : a budget that is not hit exactly never stops the stream"
-            elif kind == "le":  # poly <= 0
-                # budget - counter <= 0  (counter >= budget)
-                ok_cmp = cb == 1 and cc == -1
-                if not ok_cmp:
-                    detail = "stops while the counter is still below the budget (comparison direction)"
-            elif kind == "lt":
-                ok_cmp = False
-                detail = "strict comparison: stops one update late (counter > budget)" if (cb == 1 and cc == -1) else \
-                    "stops before the budget is reached"
-            else:
-                ok_cmp = False
-                detail = "budget compared with !="
-        seen_units[unit] = True
-        rep.decide(ok_pair and ok_cmp, "G8.budget", fi, f"unit:{unit}",
-                   f"self.{unit} is compared with the {unit[:-1]} counter '{want}' ({kind})",
-                   (f"self.{unit} is compared with {', '.join(show(a) for a in cvars) or '?'} instead of the "
-                    f"{unit[:-1]} counter '{want}'" if not ok_pair else detail),
-                   line=R.line(tn), clause="C04.4")
-    for unit in unit_counter:
-        if unit not in seen_units:
-            rep.bad("G8.budget", fi, f"unit:{unit}", f"the stopping test has no disjunct for the {unit} budget: such a "
-                    f"stream never ends", line=R.line(Bn), clause="C04.4")
+    _budget_function(rep, R, fa, cfg, fi, upd_entry, set(rets), {"epochs": E, "updates": U, "samples": S}, Bn, N)
     incE = [n for n, c in R.increments(E)]
     in_block = after_inc = after_pass = every = True
     for b_ in sorted(set(Bns)):
@@ -404,9 +324,15 @@ def run(prog: Program, rep: Report, tier: str):
                        ("break under " + (show(c) if c else "no condition") if not okc else "") +
                        ("; break can be reached without passing the budget test" if not okp else ""),
                        line=R.line(bn), clause="C04.5")
-        rep.decide(len(brks) >= 1, "G8.epoch-end", fi, "break-exists", "the per-index loop is left at the epoch end",
-                   "no break at the epoch end: with drop_last the short remainder would be yielded as a batch of the "
-                   "next update", clause="C04.5", nontrivial=False)
+        if R.main_bound is not None:
+            same = R.main_bound == SPE
+            rep.decide(same, "G8.epoch-end", fi, "break-exists", "the main iterator is cut to the epoch length (islice): the loop ends "
+                       "at the epoch end by itself", f"the main iterator is cut to {show(R.main_bound)}, which is not the epoch length "
+                       f"{show(SPE)} the update condition uses", clause="C04.5")
+        else:
+          rep.decide(len(brks) >= 1, "G8.epoch-end", fi, "break-exists", "the per-index loop is left at the epoch end",
+                     "no break at the epoch end: with drop_last the short remainder would be yielded as a batch of the "
+                     "next update", clause="C04.5", nontrivial=False)
         # epoch length formula
         rep.rule("G6.epoch-length", "epoch length: len(main_sampler) without drop_last; with drop_last "
                  "(len(main_sampler) // b) * b with one and the same b, b being drop_last_batch_size when given, else "
@@ -464,6 +390,149 @@ def run(prog: Program, rep: Report, tier: str):
     # ---- 6. batch sampler -------------------------------------------------------------------------------------------------
     batch_sampler(prog, rep)
     names.check(prog, rep, [FILE], clause="C04.G1", floor=10)
+
+
+def _budget_function(rep: Report, R, fa, cfg, fi, upd_entry: int, stops: Set[int], unit_counter, Bn: int, N: int):
+    """The stop condition as a boolean function: OR over the paths from the start of the update block to a return (or to raising
+    the stop flag) of their branch conditions.  Under each single budget kind (the constructor admits exactly one) it must equal
+    that budget's comparison with the counter of its own unit."""
+    from .sampler_common import GiveUp, formula_atoms, formula_eval, path_condition
+    body = R.loop_body_nodes(N)
+    try:
+        D, n_paths = path_condition(fa, upd_entry, stops, body, barrier={N})
+    except GiveUp as e:
+        rep.unk("G8.budget", fi, "stop-condition", f"not decided: {e}", line=R.line(Bn), clause="C04.4")
+        return
+    atoms = formula_atoms(D)
+    NONE = ("const", None)
+
+    def classify(t: Term):
+        """-> (role, unit, ok, detail); roles: none / cmp / other"""
+        if t[0] == "is":
+            a, b2 = t[1]
+            for x, y in ((a, b2), (b2, a)):
+                if x == NONE and y[0] == "self" and y[1] in unit_counter:
+                    return "none", y[1], True, ""
+        if t[0] in ("eq", "lt"):
+            p = term_to_poly(t[1])
+            battr = [a for a in p.atoms() if a[0] == "self" and a[1] in unit_counter]
+            cvars = [a for a in p.atoms() if a[0] == "var"]
+            if len(battr) == 1:
+                unit = battr[0][1]
+                want = unit_counter[unit]
+                ok_pair = len(cvars) == 1 and cvars[0][1] == want and len(p.atoms()) == 2 and p.const_value() is None \
+                    and () not in p.terms
+                if not ok_pair:
+                    return "cmp", unit, False, (f"self.{unit} is compared with {', '.join(show(a) for a in cvars) or '?'} instead of "
+                                                f"the {unit[:-1]} counter '{want}'")
+                cb, cc = p.coeff_of(battr[0]).const_value(), p.coeff_of(cvars[0]).const_value()
+                if t[0] == "eq":
+                    if unit == "samples":
+                        return "cmp", unit, False, ("samples budget compared with == : a budget that is not hit exactly never stops "
+                                                    "the stream")
+                    return "cmp", unit, cb is not None and cc is not None and cb == -cc, "comparison of unrecognised scale"
+                # 'lt' atoms: p < 0.  counter >= budget is the negation of (counter - budget < 0)
+                if cb == -1 and cc == 1:
+                    return "cmp>=neg", unit, True, ""      # atom is 'counter < budget': the stop condition is its negation
+                if cb == 1 and cc == -1:
+                    return "cmp>", unit, False, "strict comparison: stops one update late (counter > budget)"
+                return "cmp", unit, False, "comparison of unrecognised scale"
+        return "other", None, True, ""
+    roles = {t: classify(t) for t in atoms}
+    rows_cache = {}
+    import itertools
+    if len(atoms) > 14:
+        rep.unk("G8.budget", fi, "stop-condition", f"{len(atoms)} atomic tests: not decided", line=R.line(Bn), clause="C04.4")
+        return
+    for unit, want in unit_counter.items():
+        # exactly this budget is configured
+        fixed = {}
+        for t, (role, u, ok, detail) in roles.items():
+            if role == "none":
+                fixed[t] = (u != unit)
+        free = [t for t in atoms if t not in fixed]
+        table = {}
+        for row in itertools.product((False, True), repeat=len(free)):
+            val = dict(fixed)
+            val.update(zip(free, row))
+            table[row] = formula_eval(D, val)
+        depends = [t for i, t in enumerate(free)
+                   if any(table[row] != table[row[:i] + (not row[i],) + row[i + 1:]] for row in table)]
+        mine = [t for t in depends if roles[t][1] == unit and roles[t][0] != "none"]
+        foreign = [t for t in depends if t not in mine]
+        if not depends:
+            always = all(table.values()) if table else False
+            rep.bad("G8.budget", fi, f"unit:{unit}", (f"with only the {unit} budget set the stream stops after the first update whatever "
+                                                      f"the counters say" if always else
+                                                      f"the stopping test has no disjunct for the {unit} budget: such a stream never ends"),
+                    line=R.line(Bn), clause="C04.4")
+            continue
+        wrong = [roles[t][3] for t in mine if not roles[t][2]]
+        if wrong:
+            rep.bad("G8.budget", fi, f"unit:{unit}", wrong[0], line=R.line(Bn), clause="C04.4")
+            continue
+        bad_foreign = [t for t in foreign if roles[t][0] != "other"]
+        if bad_foreign:
+            t = bad_foreign[0]
+            rep.bad("G8.budget", fi, f"unit:{unit}", f"with only the {unit} budget set the stop still depends on {show(t)[:70]} "
+                    f"(the {roles[t][1]} budget, which is None then)", line=R.line(Bn), clause="C04.4")
+            continue
+        if foreign or len(mine) != 1:
+            conv = _budget_conversion(R, fa, cfg, unit, foreign, unit_counter)
+            if conv is not None:
+                rep.bad("G8.budget", fi, f"unit:{unit}", conv, line=R.line(Bn), clause="C04.4")
+            else:
+                rep.unk("G8.budget", fi, f"unit:{unit}", "with only this budget set the stop depends on tests of unrecognised shape: "
+                        + "; ".join(show(t)[:60] for t in (foreign or mine)[:3]), line=R.line(Bn), clause="C04.4")
+            continue
+        t = mine[0]
+        i = free.index(t)
+        role = roles[t][0]
+        # stop <=> comparison: for 'eq' atoms stop iff atom; for 'counter < budget' atoms stop iff not atom
+        want_when_true = role != "cmp>=neg"
+        ok = all(table[row] == (row[i] == want_when_true) for row in table)
+        rep.decide(ok, "G8.budget", fi, f"unit:{unit}",
+                   f"self.{unit} is compared with the {unit[:-1]} counter '{want}' ({'==' if t[0] == 'eq' else '>='})",
+                   f"with only the {unit} budget set the stream does not stop exactly when the {unit[:-1]} counter reaches it "
+                   f"(the comparison is negated or combined wrongly)", line=R.line(Bn), clause="C04.4")
+
+
+def _budget_conversion(R, fa, cfg, unit: str, atoms, unit_counter) -> Optional[str]:
+    """A budget converted into another unit before the loop ('end_sample = self.updates * self.batch_size', 'end_update =
+    ceil(self.samples / self.batch_size)') and compared with that unit's counter.  Between updates and samples the batch size
+    converts exactly only when every update is full - an epoch's last update is short unless drop_last cuts the epoch to whole
+    batches - so such a conversion outside a drop_last branch moves the stopping point.  (Whole epochs convert exactly through the
+    per-epoch counts.)"""
+    ctr_unit = {v: k for k, v in unit_counter.items()}
+    for t in atoms:
+        if t[0] not in ("lt", "eq"):
+            continue
+        p = term_to_poly(t[1])
+        vs = [a for a in p.atoms() if a[0] == "var"]
+        if len(vs) != 2:
+            continue
+        other = [a for a in vs if a[1] not in ctr_unit]
+        ctr = [a for a in vs if a[1] in ctr_unit]
+        if len(other) != 1 or len(ctr) != 1:
+            continue
+        target_unit = ctr_unit[ctr[0][1]]
+        if target_unit == unit or unit == "epochs":
+            continue
+        for d in other[0][2]:
+            v = cfg.def_value(d, other[0][1]) if cfg.nodes[d].kind != "entry" else None
+            if v is None:
+                continue
+            tv = fa.sym.term(v, d)
+            lfs = leaves(tv)
+            attrs = {a[1] if a[0] == "self" else (a[1][5:] if a[0] == "var" and a[1].startswith("self.") else None) for a in lfs}
+            if unit in attrs and "batch_size" in attrs:
+                conds = list(fa.conds_at(d))
+                under_drop_last = any(c == ("self", "drop_last") or (c[0] == "and" and ("self", "drop_last") in c[1]) for c in conds)
+                if not under_drop_last:
+                    return (f"the {unit} budget is converted into {target_unit} through the batch size ({show(tv)[:60]}, line "
+                            f"{R.line(d)}) and compared with the {target_unit[:-1]} counter: without drop_last an epoch's last update "
+                            f"is short, so the stream does not end right after the update at which the budget is reached")
+    return None
 
 
 def _vn(t: Term) -> Optional[str]:
